@@ -4,4 +4,5 @@ From Martian.C20 Require Import Model.
 Extraction Language OCaml.
 Extraction "model.ml" base_anchor body_resp static_resp c20_body_ok c20_static_ok
   result_eqb shape_ok requested parse_ranges clean join2 static_path atoi trim_space dec
-  ascii_lower all_ascii trim_left split beq has_prefix sub blen multipart_ctype.
+  ascii_lower all_ascii trim_left split beq has_prefix sub blen multipart_ctype
+  serve_clause static_clause.
